@@ -163,3 +163,28 @@ pub fn same_placement_side_rights(o: &Obs, p: &RefPos) -> bool {
 pub fn lib_moves(b: &Board) -> Vec<RMove> {
     MoveGen::new_legal(b).map(rmove).collect()
 }
+
+/// Compact (35-byte) encoding of an observable position, for large tables.
+pub type Packed = [u8; 35];
+pub fn pack(o: &Obs) -> Packed {
+    let mut out = [0u8; 35];
+    for i in 0..32 {
+        out[i] = (o.bd[2 * i].min(15)) | (o.bd[2 * i + 1].min(15) << 4);
+    }
+    out[32] = o.stm as u8;
+    out[33] = o.castle;
+    out[34] = o.ep.map(|s| s + 1).unwrap_or(0);
+    out
+}
+/// Unpack into a reference position whose `dp` is the file of the recorded en-passant pawn.
+pub fn unpack(p: &Packed) -> RefPos {
+    let mut r = RefPos::empty();
+    for i in 0..32 {
+        r.bd[2 * i] = (p[i] & 15).min(12);
+        r.bd[2 * i + 1] = (p[i] >> 4).min(12);
+    }
+    r.stm = if p[32] == 0 { Col::W } else { Col::B };
+    r.castle = p[33];
+    r.dp = if p[34] == 0 { -1 } else { file_of(p[34] - 1) };
+    r
+}
